@@ -49,6 +49,44 @@ class BAStream(FStream):
         return bytearray(super().readline())
 
 
+class FBytesIO(io.BytesIO):
+    """a real io.BytesIO (so: read, readline, readinto, tell, seek ...) whose reads can come back short: one directive of the schedule is
+    consumed per read / readinto / readline call (None = as asked, k = at most k bytes)"""
+
+    def __init__(self, data, sched=()):
+        super().__init__(data)
+        self._sched = list(sched)
+
+    def _cap(self, n):
+        d = self._sched.pop(0) if self._sched else None
+        return n if d is None else min(n, d)
+
+    def read(self, n=-1):
+        return super().read(self._cap(n) if n is not None and n >= 0 else n)
+
+    def readinto(self, b):
+        k = self._cap(len(b))
+        mv = memoryview(b)[:k]
+        return super().readinto(mv)
+
+    def readline(self, n=-1):
+        ln = super().readline(n)
+        k = self._cap(len(ln))
+        if k < len(ln):
+            self.seek(self.tell() - (len(ln) - k))
+            ln = ln[:k]
+        return ln
+
+
+def pipe_reader(data):
+    """a BufferedReader over the read end of a pipe holding `data` (not seekable; tell() raises)"""
+    import os as _os
+    r, w = _os.pipe()
+    _os.write(w, data)          # callers keep data below the pipe capacity (64 KiB)
+    _os.close(w)
+    return _os.fdopen(r, "rb")
+
+
 class FakeSocket(socket.socket):
     """socket.socket subclass whose recv() replays an event list: bytes = data, None = timeout / OSError"""
 
@@ -566,6 +604,20 @@ def main():
                     res, _ = run_reader(p, FStream(data), cfg, 8)
                     check_C01(em, data, res, cfg, "CRC-consistent frame with reserved header bit %d set" % bit)
                     em.count("crafted.reservedbit")
+        # direct only: streams with readinto (a real BytesIO with short reads): the same frame repeated verbatim, then a truncated copy /
+        # a copy read short inside its payload or checksum -- a reader that assembles frames in a reused buffer must not complete the
+        # cut frame from what the previous one left there
+        fr = gen.frame(valid_payloads(tabs, rng, 1)[0])
+        other = gen.frame(valid_payloads(tabs, rng, 1)[0])
+        for k_ in sorted({3, 4, len(fr) // 2, len(fr) - 3, len(fr) - 2, len(fr) - 1}):
+            for data, sched, what in ((fr + fr + fr[:k_], [], "frame, same frame, same frame cut to %d bytes at end of data" % k_),
+                                      (fr + fr + other, [None] * 10 + [max(1, k_ - 3)], "third frame read short (%d bytes of its payload+)" % k_),
+                                      (fr + fr[:-2] + other + fr, [], "second copy lacks its last two bytes")):
+                for mk in (lambda: FBytesIO(data, sched), lambda: io.BufferedReader(FBytesIO(data, sched))):
+                    cfg = (1, 0, 1, True)
+                    res, _ = run_reader(p, mk(), cfg, 8)
+                    check_C01(em, data, res, cfg, what + " (stream with readinto)")
+                    em.count("crafted.readinto")
         # direct only: behind a header announcing L payload bytes, data whose CRC is consistent at ANOTHER length (L-256, L-3, L-1, L+1, L+3,
         # L+256): a reader that miscomputes how many bytes belong to the frame would deliver a "frame" whose length field does not equal
         # the enclosed payload size
@@ -667,8 +719,24 @@ def main():
                 res, st = add_file_case(em, p, data, [], cfg, len(items) + 3, "well-formed mixed stream of %d items, mode %d" % (len(items), q))
             # direct: iterate exactly as a user would
             em.direct_evaluations += 1
-            for mk in ("bytesio", "buffered"):
-                stream = io.BytesIO(data) if mk == "bytesio" else io.BufferedReader(io.BytesIO(data))
+            kinds = ("bytesio", "buffered") + (("pipe", "makefile") if len(data) < 60000 and it % 2 == 0 else ())
+            for mk in kinds:
+                closer = None
+                if mk == "bytesio":
+                    stream = io.BytesIO(data)
+                elif mk == "buffered":
+                    stream = io.BufferedReader(io.BytesIO(data))
+                elif mk == "pipe":
+                    stream = pipe_reader(data)            # not seekable: tell() raises
+                    closer = stream
+                else:
+                    a_, b_ = socket.socketpair()          # socket.makefile('rb'): a file object over a socket (tell() unsupported)
+                    a_.sendall(data)
+                    a_.close()
+                    stream = b_.makefile("rb")
+                    closer = b_
+                    if any(x[0] == "nmealf" for x in items):
+                        pass
                 try:
                     got = [raw for raw, _ in p.RTCMReader(stream, quitonerror=0)]
                 except Exception as e:  # noqa
@@ -678,6 +746,12 @@ def main():
                     ident = "%d_%03d" % (mid, (pl[1] & 1) << 7 | pl[2] >> 1) if mid == 4076 and len(pl) > 2 else str(mid)
                     return ident not in tabs.ALL or pl in built_ok or (pl in derived and constructs(pl))
                 want = [x[1] for x in items if x[0] == "frame" and must_parse(x[2])]
+                if closer is not None:
+                    try:
+                        stream.close()
+                        closer.close()
+                    except Exception:  # noqa
+                        pass
                 if got != want:
                     em.violation("C02: frames returned differ from the valid frames of the stream (%s)" % mk,
                                  {"stream": data.hex(), "items": [x[0] for x in items]},
@@ -766,6 +840,10 @@ def main():
                     if seq != want or any(r[0] == "R" and r[1] != 2 for h, r in res):
                         em.violation("C05: raise mode did not raise a parse error at each damaged frame between the good ones",
                                      {"stream": data.hex(), "damaged": dmg}, {"sequence": seq, "expected": want})
+            # several readers alive at once with DIFFERENT error modes, read in turn: each keeps its own mode
+            if it % 4 == 0:
+                check_live(em, p, "C05", [(data, (1, 0, 1, True), None), (data, (1, 2, 1, True), None), (data, (1, 1, 1, True), None), (data, (1, 0, 2, True), None)],
+                           "one damaged stream under ignore / raise / log")
             # log mode with other kinds of handler objects (the docs allow "error handling object or function"): a bound method,
             # and a callable collector whose truth value is False while it is empty
             class Collector(list):
@@ -1134,6 +1212,25 @@ def main():
                                      {"stream": data.hex(), "recv_events": [x.hex() for x in segs]}, {})
                     if kind == "sock" and [v for v in view if v[0] == "Y"] != [v for v in ref[(si, "file")] if v[0] == "Y"]:
                         em.violation("C13: socket reader and file reader disagree on the same bytes", {"stream": data.hex(), "recv_events": [x.hex() for x in segs]}, {})
+        # a new reader object for every message over ONE shared stream, the previous reader dropped and collected before the next is made
+        import gc as _gc
+        for si, (data, items) in enumerate(streams[:4]):
+            want = [(r[0], r[1] if r[0] == "Y" else None) for h, r in run_reader(p, io.BytesIO(data), (1, 0, 1, True), len(items) + 3)[0]]
+            shared = io.BytesIO(data)
+            got = []
+            try:
+                for _ in range(len(items) + 3):
+                    rd_ = p.RTCMReader(shared, quitonerror=0)
+                    raw, parsed = rd_.read()
+                    got.append(("E", None) if raw is None and parsed is None else ("Y", raw))
+                    del rd_
+                    _gc.collect()
+            except Exception as e:  # noqa
+                got.append(("X", repr(e)))
+            em.direct_evaluations += 1
+            if got != want:
+                em.violation("C13: reading a stream through a new reader object per message (earlier readers dropped) differs from reading it through one reader: %s" % repr([g for g in got if g[0] == "X"][:1]),
+                             {"stream": data.hex(), "note": "new RTCMReader(shared_stream) per read(), del + gc.collect() in between"}, {})
         # all the readers alive at the same time, with different options, read in turn
         jobs = []
         for si, (data, items) in enumerate(streams[:6]):
